@@ -118,4 +118,11 @@ PROPS = {
         "not_covered": ["the output law of rejection samplers (ziggurat, Marsaglia-Tsang gamma, Poisson PTRS) and Cholesky-based samplers; goodness of fit is statistics, not a theorem", "termination of rejection loops (probability-1 only)"],
         "assumptions": ["hand models Statrs/Model/{Rng,Samplers}.lean with rand 0.8's word->value conversions, pinned bit-for-bit to the code by the scripted-RNG correspondence"],
     },
+    "C19": {
+        "corr_filters": [],
+        "hand_suites": ["multivariate"],
+        "not_covered": ["normalisation and moment integrals of MVN/MVT/Dirichlet densities (cubature in the search only)", "entropy integrals (formula level only)",
+                        "correctness of the modelled nalgebra routines (LU determinant, Cholesky, inverse) as det / positive-definiteness / inverse in general dimension: explicit premises (CovSpec, PSDSpec, MatrixSpec)"],
+        "assumptions": ["hand model Statrs/Model/Multivariate.lean incl. list-of-lists versions of nalgebra 0.33 dotx/gemv/LU/Cholesky, pinned bit-for-bit to the code by the correspondence"],
+    },
 }
